@@ -170,6 +170,7 @@ MODELS = {
     # three members, scaled total 65534 (not divisible by 3), the Byzantine member holds floor(total/3) < 1/3: the rounding boundary
     "bound3": dict(Chains="ChainsFork", Input="InputTwo", H="{1, 2}", B="{3}", Power="PowerBound3", Order="Order3", powers=[21845, 21845, 21844], byz=[3],
                    inputs=[[0, 1], [0, 3], [0]]),
+    "uni": dict(Chains="ChainsNest", Input="InputUni", powers=[1, 1, 1, 1], byz=[4], inputs=[[0, 1, 2], [0, 1, 2], [0, 1, 2], [0]]),
     "fork": dict(Chains="ChainsFork", Input="InputFork", powers=[1, 1, 1, 1], byz=[4], inputs=[[0, 1], [0, 1], [0, 3], [0]]),
 }
 
@@ -282,10 +283,10 @@ def sync_cfg(model, maxround, prefix, k, invariants, overrides=(), rank="RankMix
     return "\n".join(lines) + "\n"
 
 
-def sync_design(ck, name, model, walks, prefix, seed, k=2, maxround=5, overrides=(), expect_refuted=False, timeout=900, export=True, rank="RankMix"):
+def sync_design(ck, name, model, walks, prefix, seed, k=2, maxround=5, overrides=(), expect_refuted=False, timeout=900, export=True, rank="RankMix", extra_invs=()):
     """C06 at design level: MCGPBFTSync.tla (arbitrary prefix, stabilisation, quiescence-gated timeouts) by TLC simulation; stuck states are deadlocks,
     the round bound is an invariant.  Returns the histories of walks that ended with everybody decided."""
-    invs = ["RoundBound", "SafetyStill"] + (["ExportSync"] if export else [])
+    invs = ["RoundBound", "SafetyStill"] + list(extra_invs) + (["ExportSync"] if export else [])
     cfg = sync_cfg(model, maxround, prefix, k, invs, overrides, rank)
     workers = max(2, min(8, vlib.NCPU - 2))
     r = vlib.tlc(SPECDIR, "MCGPBFTSync", "gen.cfg", workdir=os.path.join(ck.dir, "tlc-" + name), workers=workers, timeout=timeout,
